@@ -118,6 +118,9 @@ def compare_history(out, model, intern, history, names, case, stats, init_flag=F
     mt = model.ask('metaedit', mio.model_tokens(history, names, init_flag, intern))
     stats['histories'] += 1
     stats['ops'] += len(history)
+    for op, (code, _) in zip(history, r['per_op']):
+        stats['op_kinds'][op[0]] = stats['op_kinds'].get(op[0], 0) + 1
+        stats['outcomes'][code] = stats['outcomes'].get(code, 0) + 1
     if mt != r['tokens']:
         mrec, mrest = split_records(mt, len(history))
         irec, irest = split_records(r['tokens'], len(history))
@@ -579,7 +582,7 @@ def run(ctx, out):
     model = common.Model()
     intern = mio.Interner()
     stats = {'kw': 0, 'decls': 0, 'decl_outcomes': {}, 'static_bodies': 0, 'roundtrips': 0, 'histories': 0, 'ops': 0,
-             'scenarios': 0, 'random_histories': 0, 'samples': []}
+             'scenarios': 0, 'random_histories': 0, 'samples': [], 'op_kinds': {}, 'outcomes': {}}
     section_a(out, model, stats)
     section_b(out, model, intern, stats)
     section_c(out, model, intern, stats, ctx.tier == 'thorough')
@@ -600,6 +603,7 @@ def run(ctx, out):
         'declarations': stats['decls'], 'declaration_outcomes_by_code': stats['decl_outcomes'],
         'static_bodies': stats['static_bodies'], 'roundtrips': stats['roundtrips'],
         'histories': stats['histories'], 'history_ops': stats['ops'],
+        'history_ops_by_kind': stats['op_kinds'], 'history_outcomes_by_code': stats['outcomes'],
         'scenarios': stats['scenarios'], 'random_histories': stats['random_histories'],
         'samples': stats['samples'][:6],
     })
